@@ -13,12 +13,69 @@ LEVEL_NOTE = ("theorems about putAll hold under every fault oracle; independence
               "of the world)")
 RULE = ("seeded random put worlds with 1-4 arguments mixing trashable entries, dot entries, missing paths, mount points, "
         "names that are not UTF-8, -f / -i with replies; each multi-argument world is also run one argument at a time "
-        "on copies and the per-argument outcome (trashed / untouched, named on stderr) compared")
+        "on copies and the per-argument outcome (trashed / untouched, named on stderr, trash directory and recorded Path of the new "
+        ".trashinfo) compared; plus forced lists where a mount point (passes the gates, cannot be moved) stands before or "
+        "after trashable entries that belong in the same trash directory")
+
+
+def forced_world(rng):
+    """an argument that passes the gates of a trash directory and then cannot be moved (a mount point), next to unrelated
+    trashable entries that belong in the same trash directory, in a random order"""
+    from ..model import W, put_argv
+    from ..sandbox import MODEL_ROOT as R
+    w = W()
+    uid = rng.choice([0, 1000])
+    home = w.dir(R + b"/home/u")
+    vol = w.mount(R + b"/vol1")
+    nest = w.mount(R + b"/vol1/nest")
+    w.file(vol + b"/on-volume", b"v")
+    w.file(nest + b"/on-nest", b"n")
+    top = rng.choice(["none", "sticky", "sticky-with-uid"])
+    if top != "none":
+        w.dir(vol + b"/.Trash", 0o1777)
+        if top == "sticky-with-uid":
+            w.dir(vol + b"/.Trash/%d" % uid, 0o700)
+    if rng.random() < 0.5:
+        w.dir(R + b"/.Trash", 0o1777)
+    where = rng.choice(["root", "vol"])
+    bad, base = (vol, home + b"/docs") if where == "root" else (nest, vol + b"/stuff")
+    w.dir(base)
+    items = [(bad + rng.choice([b"", b"/"]), {"class": "mountpoint"})]
+    for nm in rng.sample([b"good", b"a b", b"caf\xc3\xa9", b"d1"], rng.randint(1, 2)):
+        if nm == b"d1":
+            w.dir(base + b"/" + nm)
+            w.file(base + b"/" + nm + b"/in", b"x")
+        else:
+            w.file(base + b"/" + nm, b"payload " + nm)
+        items.append((base + b"/" + nm, {"class": "entry", "kind": "dir" if nm == b"d1" else "file", "spelling": "abs", "entry": base + b"/" + nm}))
+    if rng.random() < 0.4:
+        items.append((base + b"/missing", {"class": "missing"}))
+    rng.shuffle(items)
+    opts = {}
+    env = {"HOME": home}
+    world = w.world(env=env, uid=uid, cwd=home, cmd="put", opts=opts, args=[a for a, _m in items], stdin=None,
+                    meta=[m for _a, m in items], randints=[11, 12, 13])
+    world["argv"] = put_argv(opts, world["args"])
+    return world
+
+
+def new_infos(res):
+    """(trash dir, Path line) of every .trashinfo the run created"""
+    import re
+    before = {r[0] for r in res["brows"]}
+    out = []
+    for r in res["arows"]:
+        p = bytes.fromhex(r[0])
+        m = re.match(rb"^(.*)/info/[^/]+\.trashinfo$", p)
+        if m and r[0] not in before and r[1] == "f":
+            pm = re.search(rb"(?m)^Path=.*$", bytes.fromhex(r[2]))
+            out.append((m.group(1), pm.group(0) if pm else b""))
+    return out
 
 
 def solo_task(task):
     """differential independence check: outcome class of each argument alone vs in the list"""
-    world = gen_put_world(task_rng("C16", task["seed"], task["i"]))
+    world = gen_put_world(task_rng("C16", task["seed"], task["i"])) if not task.get("forced") else forced_world(task_rng("C16f", task["seed"], task["i"]))
     if len(world["args"]) < 2 or world.get("opts", {}).get("mode") == "interactive":
         return {"skip": True}
     if any(m.get("spelling") == "symlink-dotdot" for m in world["meta"]):
@@ -29,6 +86,7 @@ def solo_task(task):
         return {"skip": True}
     from ..model import snap_to_state
     diffs = []
+    solo_infos = []
     after = {bytes.fromhex(r[0]): r for r in full["arows"]}
     for k, a in enumerate(world["args"]):
         w1 = dict(world)
@@ -37,6 +95,7 @@ def solo_task(task):
         w1["argv"] = put_argv(world.get("opts", {}), [a])
         w1["meta"] = [world["meta"][k]]
         solo = putcheck.evaluate(w1, driver(), oracles=())
+        solo_infos += new_infos(solo)
         e = ents[k]
         if e is None:
             moved_full = moved_solo = None
@@ -47,6 +106,9 @@ def solo_task(task):
         named_solo = (b"'" + a + b"'") in solo["stderr"]
         if moved_full != moved_solo or named_full != named_solo:
             diffs.append({"arg": repr(a), "in_list": [moved_full, named_full], "alone": [moved_solo, named_solo]})
+    if sorted(solo_infos) != sorted(new_infos(full)):
+        diffs.append({"what": "trash directory / recorded Path of some argument depends on its neighbours",
+                      "in_list": repr(sorted(new_infos(full))), "alone": repr(sorted(solo_infos))})
     out = {"skip": False, "diffs": diffs, "summary": world_summary(world), "n": len(world["args"])}
     if diffs:
         out["world"] = jsonable(world)
@@ -59,7 +121,8 @@ def run(tier, seed):
     n = 300 if tier == "quick" else 5000
     results = run_tasks(eval_task, [{"pid": "C16", "seed": seed, "i": i, "cfg": CFG} for i in range(n)])
     absorb(ck, "C16", results, CFG, "Model.Put")
-    solos = run_tasks(solo_task, [{"seed": seed, "i": i} for i in range(120 if tier == "quick" else 1500)])
+    solos = run_tasks(solo_task, [{"seed": seed, "i": i} for i in range(120 if tier == "quick" else 1500)] +
+                      [{"seed": seed, "i": i, "forced": True} for i in range(40 if tier == "quick" else 400)])
     done = 0
     for r in solos:
         if "machinery" in r:
